@@ -14,17 +14,19 @@ ASSUMPTIONS = [
     "asks the cached queries between dispatches so that a stale cache would be visible",
     "event alphabet: D valid dispatch (every ready op x machine), I invalid dispatch, S subscribe a new recorder, U unsubscribe the oldest "
     "recorder, R reset, H create a second HistoryObserver (must raise, must not be subscribed), G create_or_get_observer without condition, "
-    "C create_or_get_observer with a condition matching only the most recently subscribed recorder",
+    "C create_or_get_observer with a condition matching only the most recently subscribed recorder, h unsubscribe / re-subscribe the "
+    "HistoryObserver (toggle), t re-subscribe the most recently unsubscribed recorder; an observer that is not subscribed receives nothing "
+    "(neither dispatches nor resets) and keeps its record",
 ]
 STUBS = ["max", "min", "int (dispatcher module only)"]
 BUDGET = {"quick": 480, "thorough": 3000}
-ALPHABET = "DISURHGC"
+ALPHABET = "DISURHGCht"
 
 
 def bounds(tier):
     if tier == "quick":
         return ("plain mode: ordered shapes <=3 jobs <=4 ops, all assignments M<=2, flexible M<=2 on <=3 ops, all histories, 2 recorders + "
-                "HistoryObserver; words mode: every event word of length <=4 over the 8-letter alphabet on (1,1),(2,1) M=2 and flexible (1,1)")
+                "HistoryObserver; words mode: every event word over the 10-letter alphabet of length <=5 on (1,1) one machine and (2,1) M=2, of length <=4 on four more structures incl. flexible")
     return "quick + words of length <=6 on the same structures and of length <=5 on (2,2),(1,1,1)"
 
 
@@ -32,10 +34,10 @@ def subspaces(tier):
     out = []
     out += C.structure_subspaces(D.shapes(3, 4), 2, False, mode="plain")
     out += C.structure_subspaces(D.shapes(3, 3), 2, True, only_flexible=True, mode="plain")
-    L = 4 if tier == "quick" else 6
-    structs = [([1, 1], [[0], [0]]), ([1, 1], [[0], [1]]), ([2, 1], [[0], [1], [1]]), ([2, 1], [[0], [1], [0]]),
+    structs = [([1, 1], [[0], [0]]), ([2, 1], [[0], [1], [1]]), ([1, 1], [[0], [1]]), ([2, 1], [[0], [1], [0]]),
                ([1, 1], [[0, 1], [0]]), ([2], [[0, 1], [1]])]
-    for sh, ms in structs:
+    for i, (sh, ms) in enumerate(structs):
+        L = (5 if i < 2 else 4) if tier == "quick" else 6
         for first in ALPHABET:
             for second in ALPHABET:
                 out.append(dict(shape=sh, machines=ms, mode="words", length=L, prefix=first + second))
@@ -48,7 +50,7 @@ def subspaces(tier):
 
 
 def cost(sp):
-    return C.cost(sp) if sp["mode"] == "plain" else 8 ** (sp["length"] - 2)
+    return C.cost(sp) if sp["mode"] == "plain" else 10 ** (sp["length"] - 2)
 
 
 class Ctx:
@@ -135,10 +137,13 @@ def harness(eng, sp):
     ctx.next_tag = next_tag
     Recorder = make_recorder_class(ctx)
     hist = HistoryObserver(disp)
+    hist_state = dict(subscribed=True)
+    unsubscribed = []   # tags of recorders that were unsubscribed, most recent last
     recorders = {}      # tag -> recorder (all ever created)
     subscribed = []     # tags in subscription order (model)
     expected = {}       # tag -> expected log
     hist_expected = []
+    hist_starts = []
 
     def new_recorder():
         r = Recorder(disp)
@@ -162,7 +167,9 @@ def harness(eng, sp):
         eng.reachable("transition")
         for t in subscribed:
             expected[t].append(("update", op, m))
-        hist_expected.append((op, m))
+        if hist_state["subscribed"]:
+            hist_expected.append((op, m))
+            hist_starts.append(ctx.spec.start[op])
         if ctx.global_log != subscribed:
             eng.fail("C10/dispatch-notifications-not-once-each-in-subscription-order",
                      f"notified {ctx.global_log}, subscribed {subscribed}")
@@ -177,12 +184,12 @@ def harness(eng, sp):
         if rec != hist_expected:
             eng.fail("C10/history-observer-differs-from-dispatch-sequence", f"{rec} vs {hist_expected}")
         else:
-            eng.prove(vand([veq(s.start_time, ctx.spec.start[s.operation.operation_id]) for s in hist.history])
+            eng.prove(vand([veq(s.start_time, st) for s, st in zip(hist.history, hist_starts)])
                       if hist.history else True, "C10/history-observer-start-times")
         real = [getattr(s, "tag", None) for s in disp.subscribers if isinstance(s, Recorder)]
         if real != subscribed:
             eng.fail("C10/subscriber-list-differs", f"{real} vs {subscribed}")
-        if sum(isinstance(s, HistoryObserver) for s in disp.subscribers) != 1:
+        if sum(isinstance(s, HistoryObserver) for s in disp.subscribers) != (1 if hist_state["subscribed"] else 0):
             eng.fail("C10/singleton-observer-subscribed-twice-or-lost")
 
     if sp["mode"] == "plain":
@@ -224,16 +231,33 @@ def harness(eng, sp):
                 raise E.PathAbort()
             t = subscribed.pop(0)
             disp.unsubscribe(recorders[t])
+            unsubscribed.append(t)
+        elif ev == "t":
+            if not unsubscribed:
+                raise E.PathAbort()
+            t = unsubscribed.pop()
+            disp.subscribe(recorders[t])
+            subscribed.append(t)
+        elif ev == "h":
+            if hist_state["subscribed"]:
+                disp.unsubscribe(hist)
+            else:
+                disp.subscribe(hist)
+            hist_state["subscribed"] = not hist_state["subscribed"]
         elif ev == "R":
             ctx.global_log = []
             disp.reset()
             ctx.spec = Spec(desc)
             for t in subscribed:
                 expected[t].append(("reset",))
-            hist_expected.clear()
+            if hist_state["subscribed"]:
+                hist_expected.clear()
+                hist_starts.clear()
             if ctx.global_log != subscribed:
                 eng.fail("C10/reset-notifications-not-once-each-in-subscription-order", f"{ctx.global_log} vs {subscribed}")
         elif ev == "H":
+            if not hist_state["subscribed"]:
+                raise E.PathAbort()
             try:
                 HistoryObserver(disp)
                 eng.fail("C10/second-singleton-observer-accepted")
@@ -262,7 +286,7 @@ def harness(eng, sp):
                     recorders[got.tag] = got
                     expected[got.tag] = []
                     subscribed.append(got.tag)
-            hget = disp.create_or_get_observer(HistoryObserver)
+            hget = disp.create_or_get_observer(HistoryObserver) if hist_state["subscribed"] else hist
             if hget is not hist:
                 eng.fail("C10/create_or_get-did-not-return-the-subscribed-history-observer")
         verify()
